@@ -230,6 +230,20 @@ impl Obs {
     pub fn body_wire(&self) -> &[u8] {
         &self.c2s[self.head_len.min(self.c2s.len())..]
     }
+    /// A compact abstract of the schedule this exchange went through (for the distinctness
+    /// measure): state path, call count, retries, head pieces, skipped interims, responses,
+    /// number of looks while awaiting 100, order of magnitude of the simulated duration.
+    pub fn schedule_sig(&self) -> u64 {
+        let mut h = 0x9E37_79B9_7F4A_7C15u64;
+        for (a, b) in &self.edges {
+            h = crate::rng::hash_step(h, (a.len() * 31 + b.len()) as u64);
+        }
+        for v in [self.calls as u64, self.overflow_retries as u64, self.head_pieces.len() as u64, self.skipped_100 as u64, self.responses.len() as u64, self.await_log.len() as u64, 64 - (self.end_ns + 1).leading_zeros() as u64, self.gave_up_waiting as u64, (self.consumed as u64).min(4096)] {
+            h = crate::rng::hash_step(h, v);
+        }
+        h
+    }
+
     pub fn state_path(&self) -> String {
         let mut s = String::new();
         for (a, b) in &self.edges {
